@@ -128,7 +128,7 @@ def dec_outcome(T, sch, fn):
 # ------------------------------------------------------------------ calls of a history
 
 CALLS = ['enc-BER', 'enc-BER-indef', 'enc-BER-chunk', 'enc-CER', 'enc-DER', 'enc-native', 'py-BER', 'py-CER', 'py-DER',
-         'dec-BER', 'dec-CER', 'dec-DER', 'dec-bad', 'stream', 'stream2', 'native-rt']
+         'dec-BER', 'dec-CER', 'dec-DER', 'dec-bad', 'stream', 'stream2', 'native-rt', 'dec-tagmap']
 
 
 class Pool(object):
@@ -184,6 +184,20 @@ class Pool(object):
         if name == 'stream2':
             # several values through one decoder object must come out as each does alone
             return dec_outcome(T, sch, lambda: [x for x in lib.DEC['DER'].StreamingDecoder(io.BytesIO(self.der[i] * 3), asn1Spec=sch)])
+        if name == 'dec-tagmap':
+            # a call that brings its own tag map (the documented tagMap= option), in which two payload decoders are replaced by
+            # ones that refuse everything: whatever it does must stay inside that call
+            from pyasn1.codec.ber import decoder as _bd
+
+            class _Refuse(_bd.IntegerPayloadDecoder):
+                def valueDecoder(self, *a, **kw):
+                    raise error.PyAsn1Error('refused by the custom tag map')
+                    yield None
+            custom = dict(_bd.TAG_MAP)
+            custom[univ.Integer.tagSet] = _Refuse()
+            custom[univ.OctetString.tagSet] = _Refuse()
+            custom[univ.Boolean.tagSet] = _Refuse()
+            return dec_outcome(T, sch, lambda: lib.DEC['BER'].decode(self.der[i], tagMap=custom))
         if name == 'native-rt':
             py = self.py[i]
             if py is None:
